@@ -253,7 +253,7 @@ Section Translation.
   Variable codata : list ctydecl.     (* CompileState.codata_types *)
   Variable cur : string.              (* CompileState.current_label *)
   (* [true]: the translation as it was BEFORE the fix commits 126604b (goto: target covariable typed
-     with the goto expression's own annotation) and <commitcap> (let / case: the continuation was placed
+     with the goto expression's own annotation) and d5d4151 (let / case: the continuation was placed
      under a binder of a name it mentions) - kept only for the regression lemmas
      fun2core_goto_unbound_before_fix and fun2core_capture_before_fix; [false]: the current code *)
   Variable goto_legacy : bool.
